@@ -221,6 +221,153 @@ theorem mean_axis_eq_weighted_mean (ws fs : List Rat) :
       | cons x xs ih => simp [List.replicate_succ, ih]
     rw [h, key fs]; simp [meanList, foldl_add_eq_sum]
 
+/-! ### lazy (block-wise) evaluation of a parameter ensemble -/
+
+/-- the blocks handed to block multi-index `bs` by `_partition_args` (one per distribution-valued argument) -/
+def pickBlocks (args : List (Arg V W)) (chunks : List (List Nat)) (bs : List Nat) : List (List V × List W) :=
+  List.zipWith (fun bl b => bl.getD b ([], [])) (partitionArgs args chunks) bs
+
+lemma getD_of_getElem? {α : Type} (l m : List α) (i j : Nat) (d : α) (h : l[i]? = m[j]?) : l.getD i d = m.getD j d := by
+  simp [List.getD_eq_getElem?_getD, h]
+
+lemma lt_length_of_lt_getD (cs : List Nat) (b l : Nat) (h : l < cs.getD b 0) : b < cs.length := by
+  by_contra hb
+  have : cs.getD b 0 = 0 := by simp [List.getD_eq_getElem?_getD, List.getElem?_eq_none (by omega : cs.length ≤ b)]
+  omega
+
+/-- one distribution axis: entry `l` of block `b` (values and weights alike) is entry `blockStart b + l` of the whole -/
+lemma pick_axis (vs : List V) (ws : List W) (cs : List Nat) (b l : Nat) (d : V) (o : W) (h : l < cs.getD b 0) :
+    ((List.zipWith Prod.mk (Ensemble.distBlocks vs cs) (Ensemble.distBlocks ws cs)).getD b ([], [])).1.getD l d
+        = vs.getD (blockStart cs b + l) d ∧
+    ((List.zipWith Prod.mk (Ensemble.distBlocks vs cs) (Ensemble.distBlocks ws cs)).getD b ([], [])).2.getD l o
+        = ws.getD (blockStart cs b + l) o := by
+  have hb := lt_length_of_lt_getD cs b l h
+  have hl : l < cs[b] := by
+    have : cs.getD b 0 = cs[b] := by simp [List.getD_eq_getElem?_getD, List.getElem?_eq_getElem hb]
+    omega
+  have hbv : b < (Ensemble.distBlocks vs cs).length := by rw [C19.distBlocks_eq_splitBy]; simpa using hb
+  have hbw : b < (Ensemble.distBlocks ws cs).length := by rw [C19.distBlocks_eq_splitBy]; simpa using hb
+  have hz : (List.zipWith Prod.mk (Ensemble.distBlocks vs cs) (Ensemble.distBlocks ws cs)).getD b ([], [])
+      = ((Ensemble.distBlocks vs cs)[b], (Ensemble.distBlocks ws cs)[b]) := by
+    rw [List.getD_eq_getElem?_getD, List.getElem?_eq_getElem (by simp; omega)]
+    simp
+  rw [hz]
+  exact ⟨getD_of_getElem? _ _ _ _ d (block_value_eq_global_value vs cs b l hb hl),
+    getD_of_getElem? _ _ _ _ o (block_value_eq_global_value ws cs b l hb hl)⟩
+
+/-- **Lazy member = eager member.**  For every argument list, every chunking of every distribution axis, every block
+multi-index `b` and local multi-index `l` inside that block (`axs` lists `(chunks, b, l)` per distribution axis): the
+scalar values and the weights seen by local member `l` of the block transform built by
+`_partition_args`/`_partial_transform` are those seen by member `blockStart b + l` of the whole ensemble. -/
+theorem lazy_member_eq_eager_member (d : V) (o : W) (args : List (Arg V W)) (axs : List (List Nat × Nat × Nat))
+    (hlen : axs.length = (ensembleShape args).length) (hax : ∀ t ∈ axs, t.2.2 < t.1.getD t.2.1 0) :
+    argsAt d (blockArgs args (pickBlocks args (axs.map (·.1)) (axs.map (·.2.1)))) (axs.map (·.2.2))
+        = argsAt d args (axs.map fun t => blockStart t.1 t.2.1 + t.2.2) ∧
+    weightsAt o (blockArgs args (pickBlocks args (axs.map (·.1)) (axs.map (·.2.1)))) (axs.map (·.2.2))
+        = weightsAt o args (axs.map fun t => blockStart t.1 t.2.1 + t.2.2) := by
+  induction args generalizing axs with
+  | nil => simp [blockArgs, argsAt, weightsAt]
+  | cons a rest ih =>
+    cases a with
+    | scalar v =>
+      have := ih axs (by simpa [ensembleShape] using hlen) hax
+      simp only [pickBlocks, partitionArgs, List.filterMap_cons, blockArgs, argsAt, weightsAt] at this ⊢
+      exact ⟨by rw [this.1], this.2⟩
+    | dist vs ws =>
+      cases axs with
+      | nil => simp [ensembleShape] at hlen
+      | cons t axs =>
+        obtain ⟨cs, b, l⟩ := t
+        have hrec := ih axs (by simpa [ensembleShape] using hlen) (fun t ht => hax t (by simp [ht]))
+        have hpick := pick_axis vs ws cs b l d o (by simpa using hax (cs, b, l) (by simp))
+        simp only [pickBlocks, partitionArgs, List.filterMap_cons, List.map_cons, List.zipWith_cons_cons, blockArgs,
+          argsAt, weightsAt] at hrec ⊢
+        exact ⟨by rw [hpick.1, hrec.1], by rw [hpick.2, hrec.2]⟩
+
+/-- **Lazy member = eager member = scalar run**, for every kernel `f`: evaluating the block transform at local index `l`
+gives the value the eager ensemble has at global index `blockStart b + l`, which is the value of the run with the
+scalar parameters that member sees. -/
+theorem lazy_member_eq_scalar_run (d : V) (o : W) (f : List V → R) (args : List (Arg V W)) (axs : List (List Nat × Nat × Nat))
+    (hlen : axs.length = (ensembleShape args).length) (hax : ∀ t ∈ axs, t.2.2 < t.1.getD t.2.1 0) :
+    f (argsAt d (blockArgs args (pickBlocks args (axs.map (·.1)) (axs.map (·.2.1)))) (axs.map (·.2.2)))
+      = f (argsAt d args (axs.map fun t => blockStart t.1 t.2.1 + t.2.2)) ∧
+    evalEnsemble d o f (scalarize d args (axs.map fun t => blockStart t.1 t.2.1 + t.2.2))
+      = [([], f (argsAt d args (axs.map fun t => blockStart t.1 t.2.1 + t.2.2)))] := by
+  refine ⟨by rw [(lazy_member_eq_eager_member d o args axs hlen hax).1], ?_⟩
+  simp only [evalEnsemble, memberIndices, ensembleShape_scalarize, List.map_nil, product, List.map_cons,
+    argsAt_scalarize, weightsAt_scalarize]
+
+/-- Every member of the ensemble is produced by exactly one block at exactly one local index, for every valid chunking
+(`chunks_j` sums to the length of distribution `j`). -/
+theorem lazy_covers_every_member_once (args : List (Arg V W)) (chunks : List (List Nat)) (idx : List Nat)
+    (hch : List.Forall₂ (fun cs n => cs.sum = n) chunks (ensembleShape args)) (hidx : idx ∈ memberIndices args) :
+    List.Forall₂ (fun cs k => ∃ b l, b < cs.length ∧ l < cs.getD b 0 ∧ blockStart cs b + l = k ∧
+      ∀ b' l', (hb' : b' < cs.length) → l' < cs[b'] → blockStart cs b' + l' = k → b' = b ∧ l' = l) chunks idx := by
+  apply C19.nd_member_unique
+  have h1 := (mem_memberIndices args idx).1 hidx
+  -- combine `idx_j < n_j` with `cs_j.sum = n_j`
+  have : ∀ (chunks : List (List Nat)) (shape idx : List Nat), List.Forall₂ (fun cs n => cs.sum = n) chunks shape →
+      List.Forall₂ (fun i n => i < n) idx shape → List.Forall₂ (fun cs k => k < cs.sum) chunks idx := by
+    intro chunks shape idx h2 h3
+    induction h2 generalizing idx with
+    | nil => cases h3; exact .nil
+    | cons hc _ ih => cases h3 with
+      | cons hi hrest => exact .cons (by omega) (ih _ hrest)
+  exact this chunks _ idx hch h1
+
+/-! ### averaged axes, block-wise -/
+
+/-- the mean over an averaged axis computed from the blocks' partial sums equals the mean over the whole axis (what a
+block-wise reduction has to reproduce), for every chunking -/
+theorem mean_of_blocks (fs : List Rat) (cs : List Nat) (h : cs.sum = fs.length) :
+    ((splitBy cs fs).map List.sum).sum / (fs.length : Rat) = meanList fs := by
+  have : ((splitBy cs fs).map List.sum).sum = fs.sum := by
+    rw [← List.sum_flatten, flatten_splitBy cs fs (by omega)]
+  rw [this]; simp [meanList, foldl_add_eq_sum]
+
+/-! ### composition of several ensemble transforms (Probe: aperture, aberrations, tilt) -/
+
+/-- **Axis j ↔ j-th distribution across composed transforms**: applying the transforms in the *reverse* of the order in
+which the builder lists its ensembles yields the ensemble axes in the listed order, followed by the axes that were
+already there (the scan axes of the probe kernel). -/
+theorem applyAll_reverse {α : Type} (base : List α) (ts : List (List α)) :
+    applyAll base ts.reverse = ts.flatten ++ base := by
+  induction ts generalizing base with
+  | nil => rfl
+  | cons t ts ih =>
+    simp only [applyAll, List.reverse_cons, List.foldl_append, List.foldl_cons, List.foldl_nil, List.flatten_cons,
+      List.append_assoc] at ih ⊢
+    rw [ih]
+
+lemma flatten_sizes (named : List (String × Nat)) :
+    (named.map fun t => if t.2 = 0 then ([] : List Nat) else [t.2]).flatten = (named.filter fun t => t.2 ≠ 0).map (·.2) := by
+  induction named with
+  | nil => rfl
+  | cons t ts ih =>
+    by_cases h : t.2 = 0 <;> simp [h, ih]
+
+/-- With the transforms applied in the reverse of the order in which the builder names its ensembles (what
+`Probe._calculate_array` does since fix 04606fd4) the built array has exactly the axes the metadata lists, for every
+combination of ensemble sizes — the constructor's size check cannot fail and axis `j` of the array is the `j`-th listed
+ensemble. -/
+theorem compose_reverse_ok (named : List (String × Nat)) :
+    composeAxes named named.reverse
+      = .ok ((named.filter fun t => t.2 ≠ 0).map (·.2), (named.filter fun t => t.2 ≠ 0).map (·.1)) := by
+  unfold composeAxes
+  simp only [List.map_reverse, applyAll_reverse, List.append_nil, flatten_sizes, if_true]
+
+/-- … and any other order mislabels them (the order `aperture, tilt, aberrations` used before fix 04606fd4 puts the
+aberration axes in front of the tilt axes). -/
+theorem applyAll_wrong_order_counterexample :
+    ¬ ∀ (tilt ab ap scan : List String), applyAll scan [ap, tilt, ab] = [tilt, ab, ap].flatten ++ scan := by
+  intro h
+  have := h ["tilt_x"] ["C10"] [] []
+  revert this
+  decide
+
+example : applyAll ["x", "y"] ([["tilt_x"], ["C10", "C30"], ["semiangle_cutoff"]] : List (List String)).reverse
+    = ["tilt_x", "C10", "C30", "semiangle_cutoff", "x", "y"] := by decide
+
 /-! ### non-vacuity -/
 example : evalEnsemble (0 : Int) (1 : Int) (fun l => l.sum) [.dist [10, 20] [1, 2], .scalar 5, .dist [1, 2, 3] [1, 1, 1]]
     = [([1, 1], 16), ([1, 1], 17), ([1, 1], 18), ([2, 1], 26), ([2, 1], 27), ([2, 1], 28)] := by decide
